@@ -81,6 +81,23 @@ void dom_lexer(void) {
             emit(s, (size_t) len, 0);
         }
     }
+    /* exhaustive over ALL byte values: every string of length 1 and 2, and every byte value in every context of a
+     * list of token prefixes / suffixes — a character-class predicate that is wrong for a single byte value
+     * (which the class alphabet may not contain) shows up here whatever recogniser and position it is used in */
+    {   static const char *pre[] = { "", "A", "a1", "A_", ":", "A:", "*", "*A", "A?", "1", "1.", ".", "1e", "1E", "1E+", "1e-", "1e1", "1 ", "1 e", "+", "-",
+            "#", "#H", "#h", "#HF", "#Q", "#q", "#Q1", "#B", "#b", "#B1", "#1", "#2", "#21", "#9", "#0", "\"", "\"a", "\"a\"", "'", "'a", "'a'",
+            "(", "(1", "(a)", " ", "\t", "A ", "1V", "1 m", "1 m/", "1 m.", "1 m2", "1 m-", "A,", "A;", "\r", "\n" };
+        static const char *suf[] = { "", "1", "A", "\"", "'", ")", " 1", "\n" };
+        unsigned b, c; size_t p, q;
+        for (b = 0; b < 256; b++) {
+            for (c = 0; c < 256; c++) { s[0] = (unsigned char) b; s[1] = (unsigned char) c; emit(s, 2, 0); }
+            for (p = 0; p < sizeof pre / sizeof pre[0]; p++) for (q = 0; q < sizeof suf / sizeof suf[0]; q++) {
+                size_t pl = strlen(pre[p]), sl = strlen(suf[q]);
+                memcpy(s, pre[p], pl); s[pl] = (unsigned char) b; memcpy(s + pl + 1, suf[q], sl);
+                emit(s, pl + 1 + sl, 0);
+                if (pl && q == 0) emit(s, pl + 1, (unsigned) pl);      /* recognisers started AT the byte, behind the prefix */
+            }
+        } }
     /* sampled: longer strings over the wider alphabet, at every offset of the buffer */
     { unsigned long n = h_thorough ? 4000000 : 250000;
       for (; n; n--) {
